@@ -224,7 +224,7 @@ def run(idx, rep, tier):
                         f["locs"].add(c[0].loc)
     rep.analysed["algorithm_slots"] = slots
     n_bad = sum(f["n"] for f in failures.values())
-    rep.count("resolve", proved=total - n_bad, nontrivial=nontrivial - n_bad if nontrivial >= n_bad else 0)
+    rep.count("resolve", proved=total - n_bad, nontrivial=nontrivial - n_bad if nontrivial >= n_bad else 0, refuted=n_bad)
     for (rule, fname, detail), f in sorted(failures.items(), key=lambda kv: kv[0]):
         construct = "~".join(detail) if rule != "total" else f"{fname}({','.join(detail)})".replace("<any operator kind>", "OP")
         det = ""
